@@ -2,6 +2,7 @@ package checks
 
 import (
 	"fmt"
+	"regexp"
 	"math/rand"
 	"os"
 	"path/filepath"
@@ -87,7 +88,9 @@ func c16Source(seed, rsize, rmax, nin, nout, nlines int, bmFirst bool) string {
 		lines = append(lines, fmt.Sprintf("i2rw %s, i%d", reg(), i))
 	}
 	for len(lines) < nlines-1-nout {
-		switch r.Intn(7) {
+		switch r.Intn(8) {
+		case 7:
+			lines = append(lines, fmt.Sprintf("sub %s, %s", reg(), reg())) // an opcode sorted after the dynamically created rsets
 		case 0:
 			lines = append(lines, fmt.Sprintf("mov %s, %d", reg(), imm()))
 		case 1:
@@ -165,6 +168,15 @@ func c16HybridSource(rsize int, overlap bool) string {
 		fmt.Sprintf("%%meta bmdef global registersize:%d\n", rsize)
 }
 
+// c16PlainSource: a program without immediates, for any declared register size
+func c16PlainSource(rsize int) string {
+	return "%section code1 .romtext\n        entry _start\n_start:\n        i2r r0, i0\n        inc r0\n        r2o r0, o0\n        j _start\n%endsection\n" +
+		"%meta cpdef cpu romcode: code1, execmode: ha\n" +
+		"%meta ioatt in0 cp: cpu, index:0, type:input\n%meta ioatt in0 cp: bm, index:0, type:input\n" +
+		"%meta ioatt out0 cp: cpu, index:0, type:output\n%meta ioatt out0 cp: bm, index:0, type:output\n" +
+		fmt.Sprintf("%%meta bmdef global registersize:%d\n", rsize)
+}
+
 func c16Emitted(tier string, hp, hb *Harness) (cfgs []Config, rejected int, errs []string) {
 	if err := BuildNative(); err != nil {
 		return nil, 0, []string{err.Error()}
@@ -195,6 +207,10 @@ func c16Emitted(tier string, hp, hb *Harness) (cfgs []Config, rejected int, errs
 		}
 	}
 	extras = append(extras, extra{"hybrid: ROM and RAM code share opcodes", c16HybridSource(8, true)}, extra{"hybrid: ROM and RAM code with disjoint opcodes", c16HybridSource(16, false)})
+	// register sizes at the edge of what a machine can hold (uint8): emitted with that size, or rejected
+	for _, rs := range []int{1, 64, 255, 256, 257, 0} {
+		extras = append(extras, extra{fmt.Sprintf("declared registersize:%d", rs), c16PlainSource(rs)})
+	}
 	for _, e := range extras {
 		fam = append(fam, src{rsize: -1, nlines: len(fam)})
 		_ = e
@@ -205,7 +221,7 @@ func c16Emitted(tier string, hp, hb *Harness) (cfgs []Config, rejected int, errs
 		var text string
 		if i >= nbase {
 			text = extras[i-nbase].text
-			s = src{nin: 0, nout: 1}
+			s = src{nin: strings.Count(text, "cp: bm, index:0, type:input"), nout: 1}
 		} else {
 			text = c16Source(Seed()*1000+i, s.rsize, s.rmax, s.nin, s.nout, s.nlines, bmFirst)
 		}
@@ -223,6 +239,17 @@ func c16Emitted(tier string, hp, hb *Harness) (cfgs []Config, rejected int, errs
 		if strings.Contains(out, "BASM-ERROR") {
 			rejected++ // a source the tool cannot fit is rejected with an error: allowed by the property
 			continue
+		}
+		// register and machine sizes agree with the source
+		if m := regexp.MustCompile(`registersize:\s*(\d+)`).FindStringSubmatch(text); m != nil {
+			ok := 1
+			for _, line := range strings.Split(out, "\n") {
+				if (strings.HasPrefix(line, "BM ") || strings.HasPrefix(line, "CP ")) && !strings.Contains(line, " rsize="+m[1]+" ") {
+					ok = 0
+				}
+			}
+			cfgs = append(cfgs, Config{Name: name + " register size of the emitted machine", Func: "zzC16Fact", Harness: hp,
+				Args: []Arg{S("register-size-agrees-with-the-source"), I(ok)}})
 		}
 		// the bond graph of the emitted machine against the attachments the source declares
 		var bmLine, inLine, outLine, linkLine string
